@@ -13,6 +13,7 @@
 #include <fcppt/optional/object_impl.hpp>
 #include <fcppt/config/external_begin.hpp>
 #include <algorithm>
+#include <cwchar>
 #include <iterator>
 #include <locale>
 #include <string>
@@ -79,6 +80,13 @@ fcppt::optional::object<std::basic_string<Out>> codecvt(
     case std::codecvt_base::ok:
       if (from_next == fcppt::container::data_end(_string))
       {
+        // The input may end in the middle of a character: the converter then
+        // keeps the incomplete bytes in its state and still reports ok.
+        if (std::mbsinit(&state) == 0)
+        {
+          return optional_return_type{};
+        }
+
         return optional_return_type{return_type(buf.begin(), buf.end())};
       }
       // Some implementations report ok although not all of the input has been
